@@ -163,17 +163,27 @@ def statehook(c):
 @contract(P, "Clamping.hook", [(NH, "Clamping.hook"), (NH, "Clamping.__init__"), (UT, "rgetattr"), (UT, "rsetattr")])
 def clamping(c):
     m = new_module(c, True)
-    inner = Obj(None, "inner")
     w = c.pw("w")
+    # the hooked attribute is given in dot notation with one, two or three components: module.weight,
+    # module.sub.weight, module.sub.deeper.weight - the value must be written to the LAST object of that path
+    depth = c.choice("attribute_path_components", [2, 1, 3])
+    path = {1: "weight", 2: "sub.weight", 3: "sub.deeper.weight"}[depth]
+    holder, objs = m, [m]
+    for name_ in path.split(".")[:-1]:
+        nxt = Obj(None, name_)
+        holder.fields[name_] = nxt
+        holder = nxt
+        objs.append(nxt)
+    inner = holder
     inner.fields["weight"] = w
-    m.fields["sub"] = inner
     which = c.choice("bounds", ["both", "min", "max"])
     lo, hi = c.real("lo"), c.real("hi")
     c.require(hi > lo)
     Cl = c.interp.classv(repo.load_module(NH).classes["Clamping"])
-    h = c.call(Cl, m, "sub.weight", lo if which != "max" else None, hi if which != "min" else None)
+    h = c.call(Cl, m, path, lo if which != "max" else None, hi if which != "min" else None)
     c.call(c.getattr(h, "hook"), m)
-    v = inner.fields["weight"].f
+    c.ensure("written_to_the_last_object_of_the_path_only", isinstance(inner.fields.get("weight"), T) and all("weight" not in o.fields for o in objs if o is not inner))
+    v = inner.fields["weight"].f if isinstance(inner.fields.get("weight"), T) else w.f
     if which != "max":
         c.ensure("at_least_min", v >= lo.z)
     if which != "min":
@@ -233,6 +243,7 @@ ASSUMPTIONS = [
 ]
 
 MUTANTS = [
+    dict(file=UT, func="rsetattr", old='    pre, _, post = attr.rpartition(".")\n    setattr(rgetattr(obj, pre) if pre else obj, post, val)', new='    path = attr.split(".")\n    setattr(rgetattr(obj, path[0]) if len(path) > 1 else obj, path[-1], val)', contracts=["Clamping.hook"], name="seed C16f: nested attribute paths with three components are written one level too high"),
     dict(file=MATH, func="normalize", old="    return scale * F.normalize(data, p=order, dim=dim, eps=epsilon)  # type: ignore", new="    norm = torch.linalg.vector_norm(data, order, dim=dim, keepdim=True)\n    return scale * (data / (norm + epsilon))", contracts=["Normalization.hook"], name="seed C16e: epsilon added to the norm instead of clamping it from below"),
     dict(file=INF, func="Hook.evalexec@setter", old="        self.__call_eval = value", new="        self.__call_train = value", contracts=["Hook.flags_reconfigured"]),
     dict(file=INF, func="Hook.__wrapped_posthook", old="if self.trainexec and module.training:", new="if self.trainexec or module.training:", contracts=["Hook.lifecycle"]),
